@@ -111,7 +111,7 @@ func solveOne(e *Enc, o *Obligation, idx int, opts solveOpts) {
 	hdr := "; obligation: " + o.Name + "\n; " + strings.ReplaceAll(o.Text, "\n", " ") + "\n"
 	write := func(suffix string, relax bool) string {
 		file := base + suffix + ".smt2"
-		os.WriteFile(file, []byte(hdr+e.ctx.query(goalNeg, o.Extra, true, relax)), 0o644)
+		os.WriteFile(file, []byte(hdr+e.ctx.queryN(goalNeg, o.Extra, true, relax, o.NAsserts)), 0o644)
 		return file
 	}
 	record := func(a solverAnswer, stage string) {
@@ -121,7 +121,7 @@ func solveOne(e *Enc, o *Obligation, idx int, opts solveOpts) {
 		}
 	}
 	nq := 0
-	if e.ctx.needsFull(goalNeg, o.Extra) {
+	if e.ctx.needsFull(goalNeg, o.Extra, o.NAsserts) {
 		nq = 1
 	}
 	fileA := write("", nq > 0)
@@ -172,7 +172,7 @@ func solveOne(e *Enc, o *Obligation, idx int, opts solveOpts) {
 		modelA = a.out
 	}
 	if !o.IsCover {
-		if q, ok := e.ctx.instantiatedQuery(goalNeg, o.Extra); ok {
+		if q, ok := e.ctx.instantiatedQuery(goalNeg, o.Extra, o.NAsserts); ok {
 			fileI := base + ".inst.smt2"
 			os.WriteFile(fileI, []byte(hdr+q), 0o644)
 			ti := opts.TimeoutS
